@@ -78,3 +78,14 @@ Theorem preserve_bare_h_refuted :
   exists (g : gr) (pres : list Z), gwfb g = true /\ total_h g = 2 /\
     graph_to_smi_mol g [] <> Some ([], []) /\ graph_to_smi_mol g pres = Some ([], []).
 Proof. exists ex_h2m, [3]. vm_compute. repeat split; discriminate. Qed.
+
+(** ** NXToGML.transform(attributes=...): the default ["charge"] is the writer of the round-trip theorems *)
+Lemma find_changed_sel_charge Lg Rg : find_changed_sel asel_charge Lg Rg = find_changed Lg Rg.
+Proof.
+  unfold find_changed_sel, find_changed. apply flat_map_ext. intros [n a]. simpl. destruct (label Rg n) as [b|]; [|reflexivity].
+  unfold natt_diff, asel_charge, opt_eqb. simpl. destruct (a_ch a) as [z|], (a_ch b) as [z0|]; try reflexivity. destruct (Z.eqb z z0); reflexivity.
+Qed.
+Theorem nx_to_gml_sel_charge Lg Rg Kg reindex eh : nx_to_gml_sel asel_charge Lg Rg Kg reindex eh = nx_to_gml Lg Rg Kg reindex eh.
+Proof.
+  unfold nx_to_gml_sel, nx_to_gml. cbv zeta. destruct reindex; rewrite find_changed_sel_charge; reflexivity.
+Qed.
